@@ -101,10 +101,12 @@ PROPS = {
             "lock erasure X4: the registry Mutex is held for the whole body; sequential semantics only (C08 not applicable)",
             "ResolveSerialized::resolve's arity transition is assumed in unit R and proved by Kani on the real body (unit A, in-place contract)",
             "Effect::serialize is any function (uninterpreted serialize_spec); the macro-generated one is checked by Kani for a two-variant enum",
+            "fewer than 2^32 registry entries are alive (register panics explicitly otherwise: 'EffectId overflow')",
+            "Core<A> is opaque in unit R (process_event/process return some effects); their fixpoint contracts are proved in unit Q",
         ],
         "not_decided": [
             "equality of typed and serialized HISTORIES (relational, whole-history)",
-            "BridgeWithSerializer::process: the effects.into_iter().map(register).collect() chain and the serializer calls (iterator adapters / erased-serde; not extractable)",
+            "BridgeWithSerializer::process is extracted and proved with the map+collect chain written out as a verified loop over the extracted register (rule X13, assumed to be what the adapter chain does); Bridge::process_event/handle_response (bincode set-up) and view are not extracted",
             "bincode/serde_json encodings of Request<EffectFfi>",
         ],
     },
@@ -123,7 +125,7 @@ PROPS = {
             "kani::stub(alloc::fmt::format) on the decode-error path (serde builds its error message with format!)",
         ],
         "not_decided": [
-            "event path: 'a rejected event leaves the app exactly as it was' sits in BridgeWithSerializer::process (erased_serde::deserialize before core.process_event) - not extractable (iterator chain, dyn serializers)",
+            "event path: proved on the extracted BridgeWithSerializer::process that a DeserializeEvent error leaves core, registry and output untouched - with Core opaque (its own behaviour is unit Q's) and erased_serde::deserialize assumed total",
             "no panic / hang / unbounded allocation inside the deserializers for arbitrary bytes",
             "a response to an id that is NOT outstanding panics (documented FIXME in registry.rs); C12 is read as speaking of outstanding requests",
         ],
